@@ -480,3 +480,68 @@ TYPST_NEWLINES = (0x0A, 0x0B, 0x0C, 0x0D, 0x85, 0x2028, 0x2029)
 def typst_is_newline(m, a, ci):
     c = m.load(a[0]) if isinstance(a[0], Ref) else a[0]
     return b_or(*[i_eq(c, k, 32) for k in TYPST_NEWLINES])
+
+
+def _acc_first(T_, default=True):
+    def f(m, a, ci):
+        n = _ast_node(m, a[0])
+        c = _first_cast(n, T_)
+        if c is None:
+            c = _default(T_)
+        return make_cast(m, c, T_) if T_ in KT.cast_variant else Ast(T_, c)
+    return f
+
+
+def _acc_last(T_):
+    def f(m, a, ci):
+        n = _ast_node(m, a[0])
+        c = _last_cast(n, T_)
+        if c is None:
+            c = _default(T_)
+        return make_cast(m, c, T_) if T_ in KT.cast_variant else Ast(T_, c)
+    return f
+
+
+def _acc_iter(T_):
+    def f(m, a, ci):
+        n = _ast_node(m, a[0])
+        s = KT.cast_set(T_)
+        out = []
+        for c in n.children:
+            if is_sym(c.kind):
+                raise EncoderGap('typed iterator over a child with symbolic kind')
+            if c.kind in s:
+                out.append(make_cast(m, c, T_) if T_ in KT.cast_variant else Ast(T_, c))
+        return ListIter(out)
+    return f
+
+
+for _name, _fn in (
+    ('CodeBlock::body', _acc_first('Code')), ('ContentBlock::body', _acc_first('Markup')), ('Strong::body', _acc_first('Markup')),
+    ('Emph::body', _acc_first('Markup')), ('FuncCall::callee', _acc_first('Expr')), ('FuncCall::args', _acc_last('Args')),
+    ('Parenthesized::expr', _acc_first('Expr')), ('Parenthesized::pattern', _acc_first('Pattern')), ('Equation::body', _acc_first('Math')),
+    ('Code::exprs', _acc_iter('Expr')), ('Math::exprs', _acc_iter('Expr')), ('Markup::exprs', _acc_iter('Expr')),
+    ('Array::items', _acc_iter('ArrayItem')), ('Dict::items', _acc_iter('DictItem')), ('Destructuring::items', _acc_iter('DestructuringItem')),
+    ('Params::children', _acc_iter('Param')), ('Args::items', _acc_iter('Arg')), ('Raw::lines', _acc_iter('Text')),
+    ('MathDelimited::open', _acc_first('Expr')), ('MathDelimited::close', _acc_last('Expr')), ('MathDelimited::body', _acc_first('Math')),
+    ('Named::name', _acc_first('Ident')), ('Named::expr', _acc_last('Expr')), ('Spread::expr', _acc_first('Expr')),
+    ('FieldAccess::target', _acc_first('Expr')), ('FieldAccess::field', _acc_last('Ident')),
+    ('Binary::lhs', _acc_first('Expr')), ('Binary::rhs', _acc_last('Expr')), ('Unary::expr', _acc_last('Expr')),
+):
+    STD.table[_name] = _fn
+
+
+@reg('Equation::block')
+def equation_block(m, a, ci):
+    n = _ast_node(m, a[0])
+    k = n.children
+    sp = KT.k('Space')
+    if len(k) < 2:
+        return False
+    return b_and(kind_in(k[1].kind, {sp}), kind_in(k[-2].kind, {sp}))
+
+
+@reg('MathPrimes::count')
+def mathprimes_count(m, a, ci):
+    n = _ast_node(m, a[0])
+    return sum(1 for c in n.children if not is_sym(c.kind) and c.kind == KT.k('Prime'))
